@@ -111,9 +111,16 @@ def part_a(rec, li, n, seed, only=None):
                         case = dict(part="a", li=li, n=n, fr=fr, to=to, rule=rule, fv=fv, supply=supply, op=op, omit=omit)
                         if only is not None and only != case:
                             continue
+                        da = xr.DataArray(base.copy(), dims=["b", S.dimname("X", fr)])
                         if g is None:
                             g = build_grid({"X": layout}, {"X": n}, gkw)
-                        da = xr.DataArray(base.copy(), dims=["b", S.dimname("X", fr)])
+                            if supply in ("grid", "gridmap", "default"):
+                                # an earlier call with other per-call settings must not change what
+                                # the Grid-level settings mean for later calls
+                                try:
+                                    g.interp(da, "X", to=to, boundary="extend" if rule != "extend" else "fill", fill_value=77.0)
+                                except Exception:
+                                    pass
                         kw = dict(ckw)
                         if not omit:
                             kw["to"] = to
